@@ -149,6 +149,53 @@ func runC12(c *Ctx) {
 		}
 		c.Sites["C12-R7#constant-indexes"] = n
 	}
+	// a write into a map that a helper of the package may have answered with nil (a copy helper that keeps a null
+	// document null): `assignment to entry in nil map` is a panic, here between a Lock and its Unlock
+	{
+		n := 0
+		mayReturnNilMap := func(h *ssa.Function) bool {
+			if h == nil || len(h.Blocks) == 0 || h.Signature.Results().Len() != 1 {
+				return false
+			}
+			if _, isMap := h.Signature.Results().At(0).Type().Underlying().(*types.Map); !isMap {
+				return false
+			}
+			r := false
+			eachInstr(h, func(_ *ssa.BasicBlock, _ int, ins ssa.Instruction) {
+				if ret, ok := ins.(*ssa.Return); ok && len(ret.Results) == 1 && isNilConst(stripConv(ret.Results[0])) {
+					r = true
+				}
+			})
+			return r
+		}
+		for _, rel := range providerPkgs {
+			for _, fn := range c.srcFuncs(rel) {
+				k := 0
+				eachInstr(fn, func(_ *ssa.BasicBlock, _ int, ins ssa.Instruction) {
+					mu, ok := ins.(*ssa.MapUpdate)
+					if !ok {
+						return
+					}
+					cl, ok := mu.Map.(*ssa.Call)
+					if !ok {
+						return
+					}
+					h := staticFn(cl)
+					if h == nil || h.Pkg != fn.Pkg || !mayReturnNilMap(h) {
+						return
+					}
+					n++
+					k++
+					q := &pathQuery{fn: fn, target: func(x ssa.Instruction) bool { return x == ins }, cutEdge: func(bb *ssa.BasicBlock, si int) bool {
+						return nonNilOnEdge(bb, si, cl)
+					}}
+					hit, path := q.after(cl)
+					c.ob("C12-R5", fnKey(fn)+"#write-into-a-map-that-may-be-nil-"+itoa(k), mu.Pos(), hit == nil, "the map written here is what "+h.Name()+" returned, and "+h.Name()+" can return nil (for a null argument): the write panics - in a mock that holds its mutex without defer, every later call of the provider then blocks", c.blockPath(path)...)
+				})
+			}
+		}
+		c.Sites["C12-R5#writes-into-helper-maps"] = n
+	}
 	// ---- R1 single reflective gate
 	c.rule("C12-R1", "WCS: reflect.Value.MethodByName / Method / Call / CallSlice are used in pkg/interpreter only inside CallMethod and HasMethod, and HasMethod never calls; no other package of the provider path performs reflective calls on GlyphLang-supplied names")
 	reflCalls := map[string]bool{"reflect.Value.MethodByName": true, "reflect.Value.Method": true, "reflect.Value.Call": true, "reflect.Value.CallSlice": true}
